@@ -8,13 +8,14 @@ request : trace <H|N|S|G> <nfiles> [c<k>|-] <layer>,<layer>,…
                 | a<n> / r<n> (the directory n levels above the file — the files sit up to three directories deep
                   — is deleted by a whiteout / replaced by a regular file; every file below goes)
           c<k>  = the context is cancelled once the trace has made k re-extractions (k ≥ 1); - or absent = never
-          history mode: H = one history entry per layer (CreatedBy "cmd<i>"), N = no history, S = last entry dropped,
+          history mode (an appended p: the extractor's ToPURL returns nil; identity is then name and version, same answers): H = one history entry per layer (CreatedBy "cmd<i>"), N = no history, S = last entry dropped,
           G = one extra non-empty entry appended
 reply   : n=<chain layers> pk=<tok>,<tok>…  spec=<tok>,…  al=<ord|e>:<hex cmd|->,…   (pk/spec sorted; "-" when empty)
           al = the chain layers the SPECIFICATION prescribes (`Spec.specChain`), one entry per chain layer in order:
                ordinal of its v1 layer (e = empty layer) and its command; the check holds the implementation's
                DiffID/Command against it
-          pk   tok = f<file>p<pkg>@<index>:<v1 layer ordinal | e>:<hex command | ->   or f<file>p<pkg>@nil (no LayerDetails)
+          pk   tok = f<file>p<pkg>@<index>:<v1 layer ordinal | e>:<hex command | ->   or f<file>p<pkg>@nil (no LayerDetails);
+                     sa@nil = the package of the harness' standalone extractor, which the trace must leave alone
           spec tok = f<file>p<pkg>@<least L with the package in every view L..last>
           or `loaderr` when the history cannot be aligned, `scanerr` when there is no chain layer at all
 -/
@@ -99,7 +100,8 @@ def parseCancel (s : String) : Option (Option Nat) :=
     | 'c' :: ds => (String.ofList ds).toNat?.map some
     | _ => none
 
-def run (mode : String) (nf : Nat) (cancelAt : Option Nat) (ls : String) : String :=
+def run (mode0 : String) (nf : Nat) (cancelAt : Option Nat) (ls : String) : String :=
+      let mode := (mode0.take 1).toString
       match (listOf ls ",").mapM (parseLayer nf) with
       | none => "bad-op"
       | some layers =>
@@ -129,12 +131,16 @@ def run (mode : String) (nf : Nat) (cancelAt : Option Nat) (ls : String) : Strin
             match originSpec (img f) p with
             | some L => s!"f{f}p{p}@{L}"
             | none => s!"f{f}p{p}@none"
+          -- the harness also runs a standalone extractor reporting one package "sa" (with a location): not traceable
+          let toks := toks ++ [if traceable false 1 then "sa@?" else "sa@nil"]
           let al := (specChain v1.length hist).map fun cm =>
             s!"{match cm.layer with | some k => toString k | none => "e"}:{if cm.cmd = "" then "-" else hexOfStr cm.cmd}"
           s!"n={n} pk={joinWith "," (sortStr toks)} spec={joinWith "," (sortStr spec)} al={joinWith "," al}"
 
 def handle (line : String) : String :=
-  let okMode (m : String) := m = "H" || m = "N" || m = "S" || m = "G"
+  -- a trailing p: the extractor has no PURL for its packages; identity is then name and version, which is what
+  -- the ids stand for anyway, so the answers are the same
+  let okMode (m : String) := ["H", "N", "S", "G", "Hp", "Np", "Sp", "Gp"].contains m
   match line.splitOn " " with
   | ["trace", mode, nf, ls] =>
     match nf.toNat? with
